@@ -115,7 +115,8 @@ class TraceGen:
                     continue
                 c = r.choice(cabs)
                 if kind == "hcable":
-                    return {"op": "htrace", "kind": kind, "path": path, "item": [hd(c)], "fn": "hwires", "sel": "ALL"}
+                    return {"op": "htrace", "kind": kind, "path": path, "item": [hd(c)],
+                            "fn": r.choice(["hwires", "hwires", "hcables"]), "sel": "ALL"}
                 wr = r.choice(list(c.wires))
                 x = r.random()
                 if x < 0.55:
